@@ -66,7 +66,7 @@ class MutexWalker(pathwalk.Walker):
 
 
 def run(ctx):
-    fbs = ctx.facts(['K20', 'K20n'], kinds=('probe',), only=r'p_coro\.cpp$')
+    fbs = ctx.facts(['K20', 'K20n'], kinds=('probe',), only=r'p_coro\.cpp$', tests=r'/test/')
     rw = ctx.rule('R-WORD', 'protocol of MutexImpl::_sender', minimum=12)
     ro = ctx.rule('R-ORDER', 'lock CAS >= acquire, release CAS >= release, enqueue >= release, take-over >= acquire',
                   minimum=12)
